@@ -94,7 +94,10 @@ def gen_scenario(rng, frontend):
         out.append(e)
         if e['kind'] == 'shutdown':
             break
-    return {'frontend': frontend, 'ints': ints, 'datas': datas, 'events': out}
+    for e in out:
+        if e['kind'] in ('data', 'dataf') and rng.random() < 0.3:
+            e['lp'] = True          # delivered inside a link-layer envelope (transparent)
+    return {'frontend': frontend, 'ints': ints, 'datas': datas, 'events': out, 'shared_param': rng.random() < 0.25}
 
 
 # ------------------------------------------------------------------ model
@@ -340,6 +343,9 @@ def execute(sc):
                 if isinstance(e, asyncio.CancelledError):
                     raise
 
+        from ndn.encoding import InterestParam as _IP
+        shared = _IP()
+
         def do_express(it, lifetime=None, probe_name=None):
             nm = list(NAMES[it['name']]) if probe_name is None else list(probe_name)
             kwargs = {}
@@ -352,7 +358,16 @@ def execute(sc):
             elif it.get('digest') is not None:
                 nm = nm + [rc.comp(1, R.data_digest[it['digest'][1]])]
             n0 = len(face.sent)
-            if fe == 'v2':
+            if sc.get('shared_param') and app_param is None:
+                # legal API form: one InterestParam object reused (and modified) by the caller for every Interest
+                shared.can_be_prefix = it['cbp']
+                shared.lifetime = lifetime or it['L']
+                shared.nonce = 1000 + it['id']
+                if fe == 'v2':
+                    coro = the_app.express(nm, make_validator(it), interest_param=shared)
+                else:
+                    coro = the_app.express_interest(nm, validator=make_validator(it), interest_param=shared)
+            elif fe == 'v2':
                 coro = the_app.express(nm, make_validator(it), app_param=app_param,
                                        signer=DigestSha256Signer(for_interest=True) if app_param is not None else None,
                                        lifetime=lifetime or it['L'], can_be_prefix=it['cbp'], nonce=1000 + it['id'])
@@ -379,7 +394,8 @@ def execute(sc):
                 tasks[it['id']] = asyncio.ensure_future(waiter(it['id'], coro))
             elif k == 'data':
                 try:
-                    await face.deliver(R.data_wires[e['d']])
+                    dw = R.data_wires[e['d']]
+                    await face.deliver(rc.make_lp(fragment=dw, headers=[(0x340, b'\x01')]) if e.get('lp') else dw)
                 except Exception as ex:   # noqa
                     R.receive_errors.append(('data', e, ex))
             elif k == 'dataf':
@@ -388,7 +404,8 @@ def execute(sc):
                     continue
                 wname = rc.strict_interest(iw)['name']
                 try:
-                    await face.deliver(bytes(make_data(wname, MetaInfo(), b'D%d' % (200 + e['i']), DigestSha256Signer())))
+                    dfw = bytes(make_data(wname, MetaInfo(), b'D%d' % (200 + e['i']), DigestSha256Signer()))
+                    await face.deliver(rc.make_lp(fragment=dfw, pit_token=b'\x07') if e.get('lp') else dfw)
                 except Exception as ex:   # noqa
                     R.receive_errors.append(('dataf', e, ex))
             elif k == 'nack':
